@@ -89,11 +89,11 @@ func liveChild(args []string) {
 	b, _ := ioutil.ReadFile(args[0])
 	json.Unmarshal(b, &lc)
 	dir := lib.Scratch("C12-live")
-	defer lib.RemoveLater(dir)
 	res := sim.RunLive(sim.LiveConfig{N: lc.N, Powers: lc.Powers, Dir: dir, Label: fmt.Sprintf("c12-%d", lc.Case), Heights: lc.Heights,
 		Watchdog: 4 * time.Minute, Silent: lc.Silent, NilVoter: lc.NilVoter, MaxRounds: 25, LateJoiner: lc.Late, Crasher: lc.Crasher, JoinAfter: lc.JoinAt, GossipBound: 3000, Handover: lc.Handover, SilentFirstProposer: lc.SilentP1})
 	jb, _ := json.Marshal(res)
 	ioutil.WriteFile(args[1], jb, 0644)
+	os.RemoveAll(dir) // the process ends here: nothing of it touches the directory afterwards
 	os.Exit(0)
 }
 
